@@ -702,7 +702,8 @@ Proof.
     ev. rewrite rt_cname by assumption. cbn [obind]. rewrite (rt_id _ Ht). cbn [obind as_list].
     rewrite rt_ixexprs by assumption. cbn [obind]. rewrite RS. cbn [obind as_bool]. rewrite rt_opt_b.
     destruct unique; [reflexivity|discriminate].
-  - ev. rewrite rt_cname by assumption. cbn [obind]. rewrite (rt_id _ Ht). cbn [obind]. rewrite RS. cbn [obind]. rewrite rt_opt_b. reflexivity.
+  - apply andb_true_iff in Ho. destruct Ho as [A1 A2]. subst name_stable.
+    ev. rewrite rt_cname by assumption. cbn [obind]. rewrite (rt_id _ Ht). cbn [obind]. rewrite RS. cbn [obind]. rewrite rt_opt_b. reflexivity.
   - rewrite !andb_true_iff in Ho. destruct Ho as [[A1 A2] A3].
     ev. rewrite rt_cname by assumption. cbn [obind]. rewrite (rt_id _ Ht). cbn [obind as_list].
     rewrite rt_ids by assumption. cbn [obind]. rewrite RS. cbn [obind]. rewrite rt_opt_b, rt_opt_s_truthy by assumption. reflexivity.
@@ -749,7 +750,8 @@ Proof.
     ev. rewrite rt_cname by assumption. cbn [obind as_list].
     rewrite rt_ixexprs by assumption. cbn [obind as_bool]. rewrite rt_opt_b.
     destruct unique; [reflexivity|discriminate].
-  - ev. rewrite rt_cname by assumption. cbn [obind]. rewrite rt_opt_b. reflexivity.
+  - apply andb_true_iff in Ho. destruct Ho as [A1 A2]. subst name_stable.
+    ev. rewrite rt_cname by assumption. cbn [obind]. rewrite rt_opt_b. reflexivity.
   - rewrite !andb_true_iff in Ho. destruct Ho as [[A1 A2] A3].
     ev. rewrite rt_cname by assumption. cbn [obind as_list].
     rewrite rt_ids by assumption. cbn [obind]. rewrite rt_opt_b, rt_opt_s_truthy by assumption. reflexivity.
@@ -910,7 +912,7 @@ Lemma fkop_eqb_refl f : fkop_eqb f f = true.
 Proof. unfold fkop_eqb. rewrite cname_eqb_refl, ident_eqb_refl, !idents_eqb_refl, !ostr_eqb_refl, !obool_eqb_refl. reflexivity. Qed.
 Lemma tbl_op_eqb_refl o : tbl_op_eqb o o = true.
 Proof. destruct o; cbn; rewrite ?column_eqb_refl, ?ident_eqb_refl, ?altercol_eqb_refl, ?cname_eqb_refl, ?obool_eqb_refl, ?idents_eqb_refl,
-  ?ostr_eqb_refl, ?fkop_eqb_refl, ?oident_eqb_refl; try reflexivity. rewrite list_eqb_refl by apply ixexpr_eqb_refl. reflexivity. Qed.
+  ?ostr_eqb_refl, ?fkop_eqb_refl, ?oident_eqb_refl, ?bool_eqb_refl; try reflexivity. rewrite list_eqb_refl by apply ixexpr_eqb_refl. reflexivity. Qed.
 Lemma member_eqb_refl m : member_eqb m m = true.
 Proof. unfold member_eqb. rewrite ident_eqb_refl, oident_eqb_refl, tbl_op_eqb_refl. reflexivity. Qed.
 Lemma top_op_eqb_refl o : top_op_eqb o o = true.
@@ -921,13 +923,15 @@ Lemma ops_eqb_refl l : ops_eqb l l = true.
 Proof. apply list_eqb_refl, top_op_eqb_refl. Qed.
 
 Theorem decider_sound i o : check_C08 i o = true -> C08_holds i o.
-Proof. unfold check_C08, C08_holds. destruct (o_parsed o) as [st|]; [|discriminate]. intros H. split; [exists st; reflexivity|exact H]. Qed.
+Proof. unfold check_C08, C08_holds. destruct (o_parsed o) as [st|]; [|discriminate]. intros H. apply andb_true_iff in H. destruct H as [H1 H2].
+  split; [exists st; reflexivity|]. split; assumption. Qed.
 
 Theorem model_holds i : inclass_C08 i = true -> C08_holds i (model_C08 i).
 Proof.
   destruct i as [c ops]. unfold inclass_C08. intros H. apply andb_true_iff in H. destruct H as [H _].
-  unfold C08_holds, model_C08. cbn [o_parsed o_sql_same]. split; [eexists; reflexivity|].
-  rewrite (eval_render c ops H). apply ops_eqb_refl.
+  unfold C08_holds, model_C08, exec_names_ok. cbn [o_parsed o_sql_same o_exec fst snd]. split; [eexists; reflexivity|].
+  rewrite (eval_render c ops H). split; [apply ops_eqb_refl|].
+  unfold names_agree. apply list_eqb_refl. intros x. unfold key_eqb. rewrite N.eqb_refl, str_eqb_refl. reflexivity.
 Qed.
 
 (* ================================================================ part 5: tokens separated by arbitrary whitespace
